@@ -846,8 +846,10 @@ class DMRGBackendImpl(MPSBackendImpl):
 
 def create_impl(data: SequenceData, config: MPSConfig) -> MPSBackendImpl:
 
+    if config.solver == Solver.DMRG:
+        if data.lindblad_ops:
+            raise NotImplementedError("DMRG solver does not currently support noise")
+        return DMRGBackendImpl(config, data)
     if data.lindblad_ops:
         return NoisyMPSBackendImpl(config, data)
-    if config.solver == Solver.DMRG:
-        return DMRGBackendImpl(config, data)
     return MPSBackendImpl(config, data)
